@@ -35,6 +35,8 @@ the data.  Theorems: C07_history_argmax, C07_warm_catches_up, C07_y_feature_even
 Family "presentations" (follow-up): every history is re-run with the same values handed over as int64 /
 int32 / float32 / Fortran / strided / list X and int64 / int32 / float32 / list / 1-D / Fortran y; the
 property oracle runs on it and it must coincide with the float64 run (float32 X: cold start only).
+Round 6: hyper-parameters arrive as numpy scalars in half of the cases of every family (the model gets the
+values); histories snapshot the caller's X / y and compare after every fit, 30 % use read-only arrays.
 """
 import collections
 
@@ -178,12 +180,15 @@ def run_histories(ctx, nhist):
         ress.append(H.run_impl(c))
     stats = collections.Counter()
     hist = dict(kind_axis=collections.Counter(), fits_per_segment=collections.Counter(),
-                scale_exp=collections.Counter(), tolerance=collections.Counter(), presentation=collections.Counter(),
+                scale_exp=collections.Counter(), tolerance=collections.Counter(), presentation=collections.Counter(), param_types=collections.Counter(),
                 re_transitions=collections.Counter(), segments=collections.Counter())
     reported = set()
     for i, (c, r) in enumerate(zip(cases, ress)):
         hist["kind_axis"]["%s/axis%d" % (c["kind"], c["axis"])] += 1
         hist["segments"][str(len(c["segments"]))] += 1
+        stats["read_only_inputs"] += bool(c.get("readonly"))
+        for nm, ty in (c.get("ptypes") or {}).items():
+            hist["param_types"]["%s:%s" % (nm, ty)] += 1
         for seg in c["segments"]:
             hist["fits_per_segment"][str(len(seg["stages"]))] += 1
             hist["scale_exp"][str(seg["scale_exp"])] += 1
@@ -302,6 +307,7 @@ def run(ctx):
     cases, ress = [], []
     for _ in range(ncases):
         c = F.gen_case(ctx.rng, ctx.quick)
+        c["ptypes"] = H.gen_ptypes(ctx.rng, [c["mixing"]])      # same values as numpy scalars
         cases.append(c)
         ress.append(F.run_impl(c))
     # ---- the property oracle runs on every case (search for failing inputs)
@@ -313,6 +319,7 @@ def run(ctx):
     for i, (c, r) in enumerate(zip(cases, ress)):
         hist["kind_axis"]["%s/axis%d" % (c["kind"], c["axis"])] += 1
         hist["re"][str(c["re"])] += 1
+        stats["numpy_scalar_parameters"] += c.get("ptypes") is not None
         hist["k"][str(c["k"])] += 1
         hist["family"][c["family"]] += 1
         hist["shape"]["%dx%d" % (len(c["X"]), len(c["X"][0]))] += 1
